@@ -74,6 +74,9 @@ func (c *Check) noGlobalLockAcrossFetch() {
 						switch x := i2.(type) {
 						case *ssa.Call:
 							if _, isBuiltin := x.Call.Value.(*ssa.Builtin); !isBuiltin && held == "" {
+								if par, isPar := x.Call.Value.(*ssa.Parameter); isPar && callFreeAtFetchCallers(p, f, par, fns) {
+									continue // an update function handed in by the caller that itself calls nothing
+								}
 								held = p.relFile(x.Pos())
 							}
 						case *ssa.Go:
@@ -134,4 +137,55 @@ func (c *Check) fetchFilesExclusive() {
 	if n == 0 {
 		c.undecided("C16-R10", "create", "", "no file creation found in the fetch tree (newTempFile and convertPerfData were there)")
 	}
+}
+
+// callFreeAtFetchCallers: every function of the fetch tree that calls f passes, for the
+// function-typed parameter par, a function literal (or named function) whose body makes no
+// call other than builtins.
+func callFreeAtFetchCallers(p *Program, f *ssa.Function, par *ssa.Parameter, tree []*ssa.Function) bool {
+	idx := -1
+	for i, q := range f.Params {
+		if q == par {
+			idx = i
+		}
+	}
+	if idx < 0 {
+		return false
+	}
+	inTree := map[*ssa.Function]bool{}
+	for _, g := range tree {
+		inTree[g] = true
+	}
+	n := 0
+	for _, g := range tree {
+		for _, b := range g.Blocks {
+			for _, ins := range b.Instrs {
+				cs, ok := ins.(ssa.CallInstruction)
+				if !ok || cs.Common().StaticCallee() != f || idx >= len(cs.Common().Args) {
+					continue
+				}
+				n++
+				var fn *ssa.Function
+				switch a := cs.Common().Args[idx].(type) {
+				case *ssa.MakeClosure:
+					fn, _ = a.Fn.(*ssa.Function)
+				case *ssa.Function:
+					fn = a
+				}
+				if fn == nil || len(fn.Blocks) == 0 {
+					return false
+				}
+				for _, fb := range fn.Blocks {
+					for _, fi := range fb.Instrs {
+						if cc, ok := fi.(ssa.CallInstruction); ok {
+							if _, isBuiltin := cc.Common().Value.(*ssa.Builtin); !isBuiltin {
+								return false
+							}
+						}
+					}
+				}
+			}
+		}
+	}
+	return n > 0
 }
